@@ -27,12 +27,13 @@ THEOREMS = [
     "SleapVerif.C14.scale_int_rate",
     "SleapVerif.C14.head_in_channels_eq_decoder_out",
     "SleapVerif.C14.selected_stride_eq_head_stride",
+    "SleapVerif.C14.output_channels",
     "SleapVerif.C14.enc_spatial_exact",
     "SleapVerif.C14.dec_spatial_exact",
     "SleapVerif.C14.output_spatial",
-    "SleapVerif.C14.output_channels",
-    "SleapVerif.C14.cpb_irrelevant",
-    "SleapVerif.C14.arch_grid_ok",
+    "SleapVerif.C14.heads_independent",
+    "SleapVerif.C14.up_interpolate_irrelevant",
+    "SleapVerif.C14.arch_grid_ok_partial",
     "SleapVerif.C14.arch_contract",
     "SleapVerif.C14.maxpool_state_irrelevant",
     "SleapVerif.C14.maxpool_state_counterexample",
@@ -41,6 +42,7 @@ THEOREMS = [
     "SleapVerif.C14.arch_full_counterexample_middle_block",
     "SleapVerif.C14.arch_full_counterexample_convs_per_block",
     "SleapVerif.C14.arch_full_counterexample_wrapper_output_stride",
+    "SleapVerif.C14.arch_grid_full_false",
     "SleapVerif.C14.gen_calc_same_pad_pool",
     "SleapVerif.C14.gen_same_pad_gives_ceil_half",
     "SleapVerif.C14.gen_unet_blocks_eq_model",
@@ -100,7 +102,7 @@ def model_line(c, calls):
     var = VARIANTS[c["fam"]].index(c["variant"]) if c["fam"] != "unet" else 0
     hl = head_list(c)
     return (f"model {c['fam']} {var} {c['filters']} {p} {q} {c['ms']} {c['bos']} {c['stem'] or 0} {c['cpb']} "
-            f"{int(c['mid'])} {int(c['upi'])} 1 " + lst(hl, lambda h: f"{h[0]} {h[1]}") + " "
+            f"{int(c['mid'])} {int(c['upi'])} 1 {int(FIX['mid'])} {int(FIX['wrap'])} " + lst(hl, lambda h: f"{h[0]} {h[1]}") + " "
             + lst(calls, lambda hw: f"{hw[0]} {hw[1]}"))
 
 
@@ -195,6 +197,21 @@ def build_real(c):
 
 def norm(s):
     return " ".join(s.split())
+
+
+FIX = {"mid": False, "wrap": False}
+
+
+def detect_fixes():
+    """Which of the fixes in /verif/fixes does the tree under test carry?  (The Lean model has one
+    flag per fix; the theorems are about the pinned tree = both flags off.)"""
+    m = call(build_real, WITNESSES["F-C14-middle-block"])
+    if m[0] == "ok":
+        FIX["mid"] = (m[1].backbone.dec.x_in_shape, m[1].backbone.max_channels) == (32, 64)
+    m = call(build_real, WITNESSES["F-C14-wrapper-output-stride"])
+    if m[0] == "ok":
+        FIX["wrap"] = list(m[1].backbone.dec.current_strides) == [8, 4]
+    return dict(FIX)
 
 
 def canon_exc(r):
@@ -401,11 +418,14 @@ def main(chk: Check):
         chk.broken.append("py2lean: source left the supported fragment (gen_* obligations not re-established): "
                           + "; ".join(problems))
     chk.build_and_audit()
+    if problems and not chk.no_build:  # the gen_* theorems checked are about a stale generated file
+        chk.discharged = max(0, chk.discharged - sum(1 for t in THEOREMS if ".gen_" in t))
     import_repo()
     import torch
 
     rng = chk.rng
     torch.manual_seed(rng.randrange(2 ** 31))
+    chk.extra["fixes_detected_in_tree"] = detect_fixes()
     t_budget = time.time() + (150 if not chk.thorough else 1500)
 
     # (1) generated definitions vs the real Python functions
@@ -417,7 +437,8 @@ def main(chk: Check):
     for _ in range(chk.n(150, 1500)):
         i, k, s, d = rng.randrange(1, 200), rng.choice([2, 2, 3, 5]), rng.choice([1, 2, 2, 3, 4]), rng.choice([1, 1, 2])
         lines.append(f"pad {i} {k} {s} {d}")
-        impl.append(str(mp._calc_same_pad(i, k, s, d)))
+        r = call(mp._calc_same_pad, i, k, s, d)
+        impl.append(str(r[1]) if r[0] == "ok" else "raise " + r[1])
     cap = {}
     orig_init = UNet.__init__
     try:
@@ -479,6 +500,9 @@ def main(chk: Check):
     table = list(grid_unet(dims))
     if not chk.thorough:
         table = [c for c in rng.sample(table, 60) if cost(c) <= 700]
+    else:  # the heaviest rows (>= 2048 bottleneck channels, ~2 GB each) are sampled, not swept
+        heavy = [c for c in table if cost(c) > 1100]
+        table = [c for c in table if cost(c) <= 1100] + rng.sample(heavy, min(8, len(heavy)))
     for c in table:
         cases.append((c, [(2 * c["ms"], 2 * c["ms"])], 1, ["table"]))
 
@@ -488,7 +512,7 @@ def main(chk: Check):
         import multiprocessing as mpc
 
         ctx = mpc.get_context("fork")
-        with ctx.Pool(int(os.environ.get("VERIF_PROCS", "12"))) as pool:
+        with ctx.Pool(int(os.environ.get("VERIF_PROCS", "8"))) as pool:
             results = pool.map(_worker, [(c, calls, B) for c, calls, B, _ in cases], chunksize=4)
         for (c, calls, B, tags), mo, (line, made, status, why) in zip(cases, model_outs, results):
             m = norm(mo if made == calls else run_driver("C14.lean", [model_line(c, made)])[0])
